@@ -13,19 +13,24 @@ PROP = dict(
         assumptions=['sections do not share a page with one another (linker script), size >= 1, addr+size does not wrap',
                      'every page of the early reservations is mapped when setupPDTForKernel runs',
                      'the frame allocator returns frames that are RAM and not in use; the boot root table is identity mapped'],
-        level_text='Lean theorems over the executable model of setupPDTForKernel: section_flags_wx (for every ELF flag word the derived '
-                   'page flags have Present, RW iff writable, NX iff not executable, never User, nothing else), sections_exact_partial '
-                   '(for every section list, offset, state and mapping function the visitor issues exactly the mapping requests '
-                   'pageOf(addr)+i -> ((addr-off)>>12)+i, i < pageCount, with those flags, in order, stopping at the first error), '
-                   'nothing_else_partial (sections below the offset contribute no request), section_page_count (the last page is not '
-                   'missed, unaligned starts included), activated (on success CR3 = the new root, the first allocated frame), '
-                   'facts_current. The address-space level statement is evaluated by the oracle on the real code: after every '
-                   'successful call the complete set of leaf entries of the activated root is compared with the expected set.',
-        level_note='Partial: the theorems are at the level of mapping requests; that each request on the (inactive, freshly built) table '
-                   'has the effect C04 states - including creation of new table levels - and that reservations are copied with their '
-                   'old frames, is NOT proved in Lean; it is carried by the correspondence run (model = code, full memory comparison) '
-                   'and the oracle clauses sections-exact, w-xor-x, nothing-else, reservations-kept, activated, error-paths '
-                   '(allocator failure at every point, failing temporary mapping, unmapped reservation). Trusted: Lean kernel '
-                   '(+ propext, Classical.choice, Quot.sound), the theorem statements, the harness MMU emulation; differential '
-                   'testing is not a proof about the Go code.',
+        level_text='Lean theorems over the executable model of setupPDTForKernel, down to the address space the hardware sees. setup_refines: '
+                   'from every well-formed boot address space (guard not armed, temporary mapping not refused, section and reserved '
+                   'pages outside the recursive slot) the call never faults; on success CR3 is the first allocated frame P (= kernelPDT), '
+                   'P\'s tables form a well-formed tree, every reserved page was mapped at boot, and the new address space is exactly '
+                   'the empty one with the mapping requests (sections, then reservations) applied in order - through PDT.Init, the '
+                   'swap/restore of entry 511 around every PDT.Map, any number of new table levels; on failure CR3 is unchanged and the '
+                   'error (allocator, unmapped reservation) is returned. sections_exact: page i of every section with addr >= off is '
+                   'mapped by frame ((addr-off)>>12)+i with sectionFlags; section_flags_wx: those flags are Present, RW iff writable, NX '
+                   'iff not executable, never User; nothing_else: an address on no requested page is unmapped (sections below the '
+                   'offset contribute no request: below_offset_no_request); reservations_kept: every reserved page keeps its boot '
+                   'frame, Present|RW; section_page_count (last page not missed); activated; section_requests_exact; facts_current. '
+                   'The oracle evaluates the same statement on the real code: after every successful call the complete set of leaf '
+                   'entries of the activated root is compared with the expected set.',
+        level_note='Proved for the model in all cases (any number of sections and reservations, allocator failure anywhere). Hypotheses of '
+                   'sections_exact / reservations_kept: no two requested pages coincide (the linker script\'s layout; a decidable '
+                   'predicate on the request list) - the oracle checks the same domain. The tie between model and Go code is the '
+                   'regenerated constants plus the differential run (model = code on every generated section table, full memory '
+                   'comparison); VisitElfSections is stubbed (multiboot decoding is C10). Trusted: Lean kernel (+ propext, '
+                   'Classical.choice, Quot.sound), the theorem statements, the harness MMU emulation; differential testing is not a '
+                   'proof about the Go code.',
 )
